@@ -129,7 +129,13 @@ def _contract(prev_kind):
         def found(I2, t):
             W.conflict = z3.BoolVal(True)
             return param(t)
-        I.empty_dict_hook = lambda: SymDict("used_python_names", z3.IntSort(), z3.IntVal(-1), enc_param, found)
+        made_dicts = []
+
+        def new_dict():
+            d = SymDict("used_python_names", z3.IntSort(), z3.IntVal(-1), enc_param, found)
+            made_dicts.append(d)
+            return d
+        I.empty_dict_hook = new_dict
 
         def recursive(I2, a, k):
             arg = k["previously_modified_params"]
@@ -144,8 +150,15 @@ def _contract(prev_kind):
         config = SOpaque("config", attrs={"field_prefix": "field_"})
         reserved = ["client", "url"]
 
+        def working(loc):
+            """the set and the dict the function works on, whatever they are called: the set is the one local set that is
+            not the argument object (or the argument itself when the code aliases it), the dict is the one the function made"""
+            sets = [v for v in loc.values() if isinstance(v, SymSet)]
+            other = [v for v in sets if v is not prev]
+            return (other[-1] if other else prev), made_dicts[-1]
+
         def inv(I2, loc, seen):
-            Mset, U = loc["modified_params"], loc["used_python_names"]
+            Mset, U = working(loc)
             parts = [z3.IsSubset(W.P0, Mset.term), z3.Implies(W.renamed_unrec, Mset.term != W.P0)]
             quiet = [W.H == W.H0]
             for g, idg in ((ia, id_a), (ib, id_b)):
@@ -156,14 +169,6 @@ def _contract(prev_kind):
             parts.append(z3.Implies(z3.And(z3.Not(W.renamed_any), z3.Not(W.conflict)), z3.And(*quiet)))
             return z3.And(*parts)
 
-        def havoc_set(I2, cur):
-            cur.term = I2.fresh("M", z3.SetSort(W.LN))
-            return cur
-
-        def havoc_dict(I2, cur):
-            cur.term = I2.fresh("U", z3.ArraySort(z3.StringSort(), z3.IntSort()))
-            return cur
-
         def havoc_world(I2):
             W.H = I2.fresh("H", z3.ArraySort(z3.IntSort(), z3.StringSort()))
             W.renamed_any = I2.fresh("renamed_any", z3.BoolSort())
@@ -171,8 +176,8 @@ def _contract(prev_kind):
             W.conflict = I2.fresh("conflict", z3.BoolSort())
             return None
 
-        I.loop_specs[(Q, 0)] = LoopSpec(inv, {"modified_params": havoc_set, "used_python_names": havoc_dict,
-                                              "__ghost_world__": havoc_world})
+        # the set and the dict are havocked in place by type (engine default), the ghost world by its own generator
+        I.loop_specs[(Q, 0)] = LoopSpec(inv, {"__ghost_world__": havoc_world})
         kw = dict(config=config)
         if prev_kind != "absent":
             kw["previously_modified_params"] = prev
